@@ -123,19 +123,20 @@ func verifyEnforcedCanonicalJSON(input []byte) error {
 			value.ForEach(iter)
 			return true
 		}
+		if value.Type != gjson.Number {
+			return true
+		}
 		if value.Num < -9007199254740991 || value.Num > 9007199254740991 {
 			valid = false
 			return false
 		}
-		if value.Num != 0 && strings.ContainsRune(value.Raw, '.') {
+		// Only integer literals are allowed: no fractions and no exponents,
+		// whatever their value (so "0.0", "0e0" and "1E2" are refused too).
+		if strings.ContainsAny(value.Raw, ".eE") {
 			valid = false
 			return false
 		}
-		if value.Num != 0 && strings.ContainsRune(value.Raw, 'e') {
-			valid = false
-			return false
-		}
-		if value.Num == 0 && value.Raw == "-0" {
+		if value.Raw == "-0" {
 			valid = false
 			return false
 		}
